@@ -123,14 +123,14 @@ impl Ctx<'_> {
         self.tally.hit(kind, producer, tag, true);
         if !kind.inv(got) {
             self.viol(
-                &format!("{}-invariant-broken-by:{producer}-{tag}", kind.name()),
+                &format!("{}-invariant-broken-by:{producer}{}{tag}", kind.name(), if tag.is_empty() { "" } else { "-" }),
                 json!({"value_hex": hex(got.as_bytes())}),
             );
         }
         if let Some(w) = want {
             if w != got {
                 self.viol(
-                    &format!("{}-content-changed-by:{producer}-{tag}", kind.name()),
+                    &format!("{}-content-changed-by:{producer}{}{tag}", kind.name(), if tag.is_empty() { "" } else { "-" }),
                     json!({"value_hex": hex(got.as_bytes()), "want_hex": hex(w.as_bytes())}),
                 );
             }
@@ -144,7 +144,7 @@ impl Ctx<'_> {
         self.tally.hit(kind, producer, tag, false);
         if input_valid == Some(true) {
             self.m.count("valid_input_refused", 1);
-            self.m.seen("valid_input_refused_by", &format!("{}:{producer}-{tag}", kind.name()));
+            self.m.seen("valid_input_refused_by", &format!("{}:{producer}{}{tag}", kind.name(), if tag.is_empty() { "" } else { "-" }));
         }
     }
 
@@ -1095,17 +1095,17 @@ fn main() {
         replay(&mut m, &r, args.seed);
         finish_all(&args, vec![m]);
     }
-    // Under Miri (scale 1) the defaults come to 32 x 2 inputs of at most 256 bytes, one corrupted
-    // archive per input and 4 pool rounds cut to a 16-entry window; `--set inputs= / pool_rounds= /
+    // Under Miri (scale 1) the defaults come to 20 fixed + 32 generated inputs of at most 256 bytes,
+    // one corrupted archive per input and 2 pool rounds cut to a 12-entry window; `--set inputs= / pool_rounds= /
     // pool_cap=` override. Miri is there for the unsafe paths (inline slice, ArcStr alloc/dealloc,
     // archive casts), which every input exercises; the bulk sampling is the native engines' job.
     let miri = cfg!(miri);
-    let inputs = args.get_u64("inputs", args.n(200_000, 3_000_000) / if miri { 32 } else { 1 });
+    let inputs = args.get_u64("inputs", args.n(200_000, 3_000_000) / if miri { 64 } else { 1 });
     let per_shard = (inputs / SHARDS).max(1);
     let max_long = if miri { 256 } else { args.n(100_000, 1_000_000) as usize };
     let mutations = if miri { 1 } else { 3 };
-    let rounds = args.get_u64("pool_rounds", args.n(24, 240).max(if miri { 4 } else { 2 }));
-    let cap = args.get_u64("pool_cap", if miri { 16 } else { 0 }) as usize;
+    let rounds = args.get_u64("pool_rounds", args.n(24, 240).max(2));
+    let cap = args.get_u64("pool_cap", if miri { 12 } else { 0 }) as usize;
     let threads = cores().min(SHARDS as usize);
     let parts = par_shards(threads, |i, n| {
         let mut w = m.worker();
